@@ -64,6 +64,37 @@ class SwitchingSource(CountingSource):
         return CountingSource.read(self)
 
 
+class _SeqBase(CountingSource):
+    """A source that is ALSO a sequence / an iterable (an application class that keeps its packets in a list and offers
+    indexing for its own purposes).  What it delivers as a data source is what read() returns - here: the frames after a
+    header that iteration and indexing would show."""
+
+    def __init__(self, frames, header):
+        super().__init__(frames)
+        self._all = list(header) + list(frames)
+        self.iterated = 0
+
+    def __len__(self):
+        return len(self._all)
+
+
+class _IterableSource(_SeqBase):
+    def __iter__(self):
+        self.iterated += 1
+        return iter(self._all)
+
+
+class _LegacySequenceSource(_SeqBase):
+    # only __getitem__ + __len__: Python's legacy sequence iteration
+    def __getitem__(self, i):
+        self.iterated += 1
+        return self._all[i]
+
+
+def SequenceSource(frames, header, legacy):
+    return (_LegacySequenceSource if legacy else _IterableSource)(frames, header)
+
+
 class _UpperValidator(DataValidator):
     def is_valid(self, frame):
         return frame.isupper()
@@ -259,7 +290,7 @@ def parse_delivery(delivery):
     mode, prior, use, j = parts[0], None, None, 0
     for p in parts[1:]:
         k, _, val = p.partition("=")
-        if k in ("fault", "vfault", "dress", "gen", "clone", "threads", "switch"):
+        if k in ("fault", "vfault", "dress", "gen", "clone", "threads", "switch", "seq"):
             continue
         if k == "prior":
             prior = tuple(1 if c == "A" else 0 for c in val)
@@ -323,6 +354,11 @@ def run(v, params, kind="tuple", delivery="list", on_token=None):
     opts = dict(p.partition("=")[::2] for p in delivery.split("|")[1:])
     how = opts.get("dress", "int")
     GEN_FLAG[0] = {"1": 1, "np": np.True_, "int8": np.int8(1)}.get(opts.get("gen"), True)
+    if "seq" in opts and not (prior is not None or "fault" in opts or "vfault" in opts):
+        src = SequenceSource(frames, frames[: int(opts["seq"])] or frames[:1], legacy=int(opts["seq"]) % 2 == 0)
+        tk = make_tokenizer(validator, params, how)
+        tokens = deliver(tk, src, mode, on_token)
+        return frames, tokens, src
     if "switch" in opts and not (prior is not None or "fault" in opts or "vfault" in opts):
         src = SwitchingSource(frames, int(opts["switch"]))
         tk = make_tokenizer(validator, params, how)
